@@ -1,2 +1,336 @@
-/- C01 driver (stub until the model exists) -/
-def main : IO Unit := pure ()
+/- C01 driver: trace acceptor.  Input per case: op lines, then the implementation's output lines
+prefixed "T ", then "end".
+(i) sequentialised ops: every op is mapped to model steps (each checked with `valid`); the lines the
+    model predicts (run ids handed out, cancel results, executions with the executing thread, loop
+    state after a pass) must equal the implementation's lines one by one.
+(ii) `stress …` ops: the recorded history (`H …` lines) is checked against the specification:
+    exactly once (or never, when cancelled), per-submitter FIFO, loop thread, no lost wake-up.
+Prints `ok …` or `reject <reason>`. -/
+import TboxModel.Util
+import TboxModel.C01.Spec
+open Tbox.Util Tbox.C01
+
+/-- script items of a callable: model acts plus "thread t submits template k right now" -/
+inductive XAct where
+  | act (a : Act)
+  | cross (t k : Nat)
+deriving Repr
+
+def nThreads : Nat := 4
+
+def parseXAct (w : String) : Option XAct :=
+  match w.toList with
+  | ['x'] => some (.act .exit)
+  | 'i' :: r => (String.ofList r).toNat?.bind fun k => if k < 64 then some (.act (.inLoop k)) else none
+  | 'n' :: r => (String.ofList r).toNat?.bind fun k => if k < 64 then some (.act (.next k)) else none
+  | 'c' :: r => (String.ofList r).toNat?.map fun id => .act (.cancel id)
+  | 'w' :: r =>
+      match (String.ofList r).splitOn "." with
+      | [t, k] => do
+          let t ← t.toNat?; let k ← k.toNat?
+          if t < nThreads ∧ k < 64 then some (.cross t k) else none
+      | _ => none
+  | _ => none
+
+def parseBody (w : String) : Option (List XAct) :=
+  if w == "-" then some [] else do
+    let l ← (w.splitOn ",").mapM parseXAct
+    if l.isEmpty ∨ l.length > 16 then none else some l
+
+def stripBody (b : List XAct) : List Act :=
+  b.filterMap fun x => match x with | .act a => some a | .cross _ _ => none
+
+structure TAcc where
+  s : State := init
+  progs : List (Nat × List XAct) := []        -- template table
+  bodies : List (Nat × List XAct) := []       -- run id → script captured at submission (current loop object)
+  tl : List String := []
+  tags : List String := []
+  err : Option String := none
+  nops : Nat := 0
+  late : Option (Nat × Nat) := none           -- a submitter blocked on lock_ (thread, template)
+  fuel : Nat := 400000
+  runs : Nat := 0                             -- loop starts on this loop object
+  execs : Nat := 0
+
+def TAcc.ext (a : TAcc) (k : Nat) : List XAct := (a.progs.lookup k).getD []
+def TAcc.cfg (a : TAcc) : Cfg := fixedCfg fun k => stripBody (a.ext k)
+def TAcc.fail (a : TAcc) (m : String) : TAcc := if a.err.isSome then a else { a with err := some s!"op#{a.nops} {m}" }
+def TAcc.tag (a : TAcc) (t : String) : TAcc := if a.tags.contains t then a else { a with tags := a.tags ++ [t] }
+
+def expectLine (a : TAcc) (want : String) : TAcc :=
+  if a.err.isSome then a else
+  match a.tl with
+  | l :: rest => if l == want then { a with tl := rest } else a.fail s!"impl=[{l}] model=[{want}]"
+  | [] => a.fail s!"impl=<missing> model=[{want}]"
+
+/-- apply one model step; it must be enabled -/
+def doStep (a : TAcc) (st : Step) : TAcc :=
+  if a.err.isSome then a else
+  if valid a.s st then { a with s := step a.cfg a.s st } else a.fail s!"driver: model step {repr st} not enabled"
+
+def phaseName : Phase → String
+  | .idle => "idle" | .poll => "poll" | .pre => "pre" | .wake => "wake" | .next => "next" | .drain => "drain" | .dead => "dead"
+
+/-- cross-thread runInLoop as a model step + expected `S id` line -/
+def crossSubmit (a : TAcc) (t k : Nat) (suffix : String) : TAcc :=
+  let id := a.s.inAlloc + 2
+  let a := if a.s.keepRunning == false && (a.s.phase == .wake || a.s.phase == .next) then a.tag "submit-while-exiting" else a
+  let a := if a.s.phase == .idle && a.runs > 0 then a.tag "submit-between-runs" else a
+  let a := doStep a (.submit t k)
+  expectLine { a with bodies := (id, a.ext k) :: a.bodies } ("S " ++ toString id ++ suffix)
+
+/-- the script of the callable that was just popped -/
+def runScript (a : TAcc) (b : List XAct) : TAcc :=
+  b.foldl (fun a x =>
+    if a.err.isSome then a else
+    match x with
+    | .act (.inLoop k) =>
+        let id := a.s.inAlloc + 2
+        expectLine { (doStep a .act) with bodies := (id, a.ext k) :: a.bodies } ("S " ++ toString id)
+    | .act (.next k) =>
+        let id := a.s.nextAlloc + 2
+        expectLine { (doStep a .act) with bodies := (id, a.ext k) :: a.bodies } ("S " ++ toString id)
+    | .act (.cancel id) =>
+        let r := cancelRet a.s id
+        let a := a.tag (if r then (if hasId a.s.tmpQ id then "cancel-batch-hit" else "cancel-queue-hit")
+                        else if id ∈ a.s.executed then "cancel-after-exec" else if id ∈ idsOf a.s.dQ then "cancel-in-drain-miss" else "cancel-miss")
+        expectLine (doStep a .act) ("C " ++ toString id ++ (if r then " 1" else " 0"))
+    | .act .exit => (doStep a .act).tag "exit-in-task"
+    | .cross t k =>
+        if t ≥ nThreads || t == a.s.loopTid || a.late.isSome || (a.s.phase == .drain && a.s.destroying) then
+          expectLine a "W skip"
+        else if a.s.phase == .drain then
+          expectLine ({ a with late := some (t, k) }.tag "submit-blocked-by-drain") "W blocked"
+        else crossSubmit (a.tag "cross-mid-batch") t k "") a
+
+/-- a callable was popped by execFront/drainExec: expect its `E` line, run its script -/
+def afterPop (a : TAcc) : TAcc :=
+  if a.err.isSome then a else
+  match a.s.log with
+  | .exec id tid :: _ =>
+      if a.fuel = 0 then a.fail "driver fuel exhausted (runaway program)" else
+      let a := expectLine { a with fuel := a.fuel - 1, execs := a.execs + 1 } s!"E {id} {tid}"
+      runScript a ((a.bodies.lookup id).getD [])
+  | _ => a.fail "driver: no exec event after pop"
+
+def batch (a : TAcc) : Nat → TAcc
+  | 0 => a.fail "driver: batch fuel"
+  | n + 1 =>
+    if a.err.isSome then a else
+    if valid a.s .execFront then batch (afterPop (doStep a .execFront)) n else a
+
+def drain (a : TAcc) (gens : Nat) : Nat → TAcc
+  | 0 => a.fail "driver: drain fuel"
+  | n + 1 =>
+    if a.err.isSome then a else
+    if valid a.s .drainGen then drain (doStep a .drainGen) (gens + 1) n
+    else if valid a.s .drainExec then
+      drain (afterPop ((doStep a .drainExec).tag (if a.s.destroying then "exec-in-destructor" else "exec-in-exit-drain"))) gens n
+    else
+      let a := if gens ≥ 2 then a.tag "drain-generations>=2" else a
+      let a := if gens ≥ 100 then a.tag "drain-bound-hit" else a
+      doStep a .drainEnd
+
+def finishExit (a : TAcc) : TAcc :=
+  let a := expectLine a "P exited"
+  match a.late with
+  | some (t, k) => crossSubmit { a with late := none } t k " late"
+  | none => a
+
+def onePass (a : TAcc) (stop : Bool) : TAcc :=
+  let a := doStep a .passBegin
+  let a := if stop then doStep a (.cbAct .exit) else a
+  let a := if a.s.wakeSeen then
+             doStep (if a.runs ≥ 2 then a.tag "wake-after-rerun" else a.tag "wake") .passWake
+           else doStep (if !a.s.inLoopQ.isEmpty then a.tag "UNWOKEN" else a) .passSkip
+  let a := batch a 100000
+  let a := doStep a .passNext
+  let a := if !a.s.tmpQ.isEmpty then a.tag "next-batch" else a
+  let a := batch a 100000
+  let a := doStep a .passEnd
+  if a.err.isSome then a else
+  if a.s.phase == .poll then expectLine a "P parked"
+  else finishExit (drain a 0 1000000)
+
+def opDestroy (a : TAcc) (t : Nat) : TAcc :=
+  let a := doStep a (.destroy t)
+  let a := drain a 0 1000000
+  let a := expectLine a "P destroyed"
+  let a := if !(pend a.s).isEmpty then a.tag "dropped-after-100-generations" else a
+  { a with s := init, bodies := [], runs := 0 }
+
+def thr (w : String) : Option Nat := w.toNat?.bind fun t => if t < nThreads then some t else none
+def tmpl (w : String) : Option Nat := w.toNat?.bind fun k => if k < 64 then some k else none
+
+def stepOp (a : TAcc) (line : String) : TAcc :=
+  if a.err.isSome then a else
+  let first := a.nops == 0
+  let a := { a with nops := a.nops + 1 }
+  let idle := a.s.phase == .idle
+  let bad := expectLine a "bad-op"
+  match words line with
+  | ["engine", e] => if first && (e == "epoll" || e == "select") then expectLine (a.tag e) "P engine" else bad
+  | ["prog", k, b] =>
+      match tmpl k, parseBody b with
+      | some k, some b => expectLine { a with progs := (k, b) :: a.progs } "P prog"
+      | _, _ => bad
+  | ["sub", t, k] =>
+      match thr t, tmpl k with
+      | some t, some k => if !idle && t == a.s.loopTid then bad else crossSubmit a t k ""
+      | _, _ => bad
+  | ["next", t, k] =>
+      match thr t, tmpl k with
+      | some t, some k =>
+          if !idle then bad else
+          let id := a.s.nextAlloc + 2
+          expectLine { (doStep a (.idleAct t (.next k))) with bodies := (id, a.ext k) :: a.bodies } ("S " ++ toString id)
+      | _, _ => bad
+  | ["cancel", t, id] =>
+      match thr t, id.toNat? with
+      | some t, some id =>
+          if !idle then bad else
+          let r := cancelRet a.s id
+          expectLine ((doStep a (.idleAct t (.cancel id))).tag (if r then "cancel-idle-hit" else "cancel-miss")) ("C " ++ toString id ++ (if r then " 1" else " 0"))
+      | _, _ => bad
+  | ["exit", t] =>
+      match thr t with
+      | some t => if !idle then bad else expectLine (doStep a (.idleAct t .exit)) "P exit"
+      | none => bad
+  | ["run", m, t] =>
+      match thr t with
+      | some t =>
+          if !idle || !(m == "once" || m == "forever") then bad else
+          let a := if a.runs ≥ 1 then a.tag "rerun" else a
+          let a := if !a.s.inLoopQ.isEmpty then a.tag "start-with-queued-work" else a
+          let a := if m == "once" then a.tag "once" else a
+          expectLine { (doStep a (.loopStart t (m == "forever"))) with runs := a.runs + 1 } "P running"
+      | none => bad
+  | ["pass"] => if idle then bad else onePass a false
+  | ["stop"] => if idle then bad else onePass a true
+  | ["destroy", t] =>
+      match thr t with
+      | some t => if !idle then bad else opDestroy a t
+      | none => bad
+  | _ => bad
+
+def finalize (a : TAcc) : TAcc :=
+  if a.err.isSome then a else
+  let a := { a with nops := a.nops + 1 }
+  let a := if a.s.phase != .idle then onePass a true else a
+  opDestroy a 0
+
+/-! ### stress histories -/
+
+structure Key where
+  owner : Nat
+  entry : String
+deriving BEq
+
+structure KS where
+  key : Key
+  submitted : Nat := 0
+  lastSeq : Nat := 0
+  executed : Nat := 0
+  cancelled : List Nat := []
+
+structure SAcc where
+  ks : List KS := []
+  err : Option String := none
+  lost : Nat := 0
+  total : Nat := 0
+  doneSeen : Bool := false
+
+def SAcc.upd (a : SAcc) (k : Key) (f : KS → KS) : SAcc :=
+  if a.ks.any (·.key == k) then { a with ks := a.ks.map fun x => if x.key == k then f x else x }
+  else { a with ks := f { key := k } :: a.ks }
+
+def SAcc.get (a : SAcc) (k : Key) : KS := (a.ks.find? (·.key == k)).getD { key := k }
+
+def stressLine (a : SAcc) (l : String) : SAcc :=
+  if a.err.isSome || a.doneSeen then a else
+  match words l with
+  | ["H", "sub", o, e, n] =>
+      match o.toNat?, n.toNat? with
+      | some o, some n => a.upd ⟨o, e⟩ fun x => { x with submitted := n }
+      | _, _ => { a with err := some s!"unparsable [{l}]" }
+  | ["H", "c", o, e, q] =>
+      match o.toNat?, q.toNat? with
+      | some o, some q => a.upd ⟨o, e⟩ fun x => { x with cancelled := q :: x.cancelled }
+      | _, _ => { a with err := some s!"unparsable [{l}]" }
+  | ["H", "x", o, e, q, tid] =>
+      match o.toNat?, q.toNat? with
+      | some o, some q =>
+          let x := a.get ⟨o, e⟩
+          if tid != "0" then { a with err := some s!"task {o}/{e}/{q} executed on thread {tid}, not on the loop thread" }
+          else if x.cancelled.contains q then { a with err := some s!"task {o}/{e}/{q} executed although cancel() returned true" }
+          else if q == 0 || q > x.submitted then { a with err := some s!"task {o}/{e}/{q} executed but never submitted" }
+          else if q ≤ x.lastSeq then
+            { a with err := some s!"task {o}/{e}/{q} executed after {o}/{e}/{x.lastSeq}: executed twice or out of submission order" }
+          else { a.upd ⟨o, e⟩ (fun x => { x with lastSeq := q, executed := x.executed + 1 }) with total := a.total + 1 }
+      | _, _ => { a with err := some s!"unparsable [{l}]" }
+  | ["H", "lost", n] => { a with lost := n.toNat?.getD 1 }
+  | ["H", "done", _] => { a with doneSeen := true }
+  | _ => { a with err := some s!"unexpected history line [{l}]" }
+
+def stressVerdict (a : SAcc) : Option String :=
+  match a.err with
+  | some e => some e
+  | none =>
+    if !a.doneSeen then some "history incomplete (no `H done`)" else
+    match a.ks.find? (fun x => x.executed + x.cancelled.length != x.submitted) with
+    | some x => some s!"submitter {x.key.owner}/{x.key.entry}: {x.submitted} submitted, {x.executed} executed, {x.cancelled.length} cancelled: task(s) dropped"
+    | none =>
+      if a.lost > 0 then some s!"LOST WAKE-UP: {a.lost} time(s) no task was executed for 300 ms although tasks were pending and the loop was running"
+      else none
+
+/-- consume the history of one stress op from the implementation lines -/
+def stressOp (a : TAcc) : TAcc :=
+  if a.err.isSome then a else
+  let a := { a with nops := a.nops + 1 }
+  let (h, rest) := a.tl.span (fun l => !(l.startsWith "H done"))
+  let (h, rest) := match rest with | d :: r => (h ++ [d], r) | [] => (h, [])
+  let sa := h.foldl stressLine ({} : SAcc)
+  match stressVerdict sa with
+  | some e => a.fail e
+  | none => { (a.tag "stress").tag (if sa.ks.any (fun x => !x.cancelled.isEmpty) then "stress-cancel" else "stress") with tl := rest, execs := a.execs + sa.total }
+
+structure DS where
+  ops : Array String := #[]
+  tl : Array String := #[]
+
+def isStress (l : String) : Bool := (words l).head? == some "stress"
+
+def validStress (l : String) (idle : Bool) : Bool :=
+  match words l with
+  | ["stress", e, ns, nt, seed, r, d] =>
+      match ns.toNat?, nt.toNat?, seed.toNat?, r.toNat?, d.toNat? with
+      | some ns, some nt, some _, some r, some _ =>
+          (e == "epoll" || e == "select") && ns ≥ 1 && ns ≤ 16 && nt ≥ 1 && nt ≤ 20000 && r ≥ 1 && r ≤ 8 && idle
+      | _, _, _, _, _ => false
+  | _ => false
+
+def finish (d : DS) : List String :=
+  let a0 : TAcc := { tl := d.tl.toList }
+  let a := d.ops.foldl (fun a l =>
+    if isStress l then
+      (if validStress l (a.s.phase == .idle) then stressOp a else expectLine { a with nops := a.nops + 1 } "bad-op")
+    else stepOp a l) a0
+  let a := finalize a
+  let tagsLine := if a.tags.isEmpty then [] else ["B " ++ " ".intercalate a.tags]
+  match a.err with
+  | some e => tagsLine ++ ["reject " ++ e]
+  | none =>
+    match a.tl with
+    | [] => tagsLine ++ [s!"ok ops={a.nops} executions={a.execs}"]
+    | l :: _ => tagsLine ++ ["reject unexpected extra implementation output: [" ++ l ++ "]"]
+
+def stepLine (d : DS) (line : String) : DS × List String :=
+  let t := line.trimAscii.toString
+  if t.isEmpty then (d, [])
+  else if t.startsWith "case " then ({}, [t])
+  else if t == "end" then ({}, finish d)
+  else if t.startsWith "T " then ({ d with tl := d.tl.push (t.drop 2).toString }, [])
+  else ({ d with ops := d.ops.push t }, [])
+
+def main : IO Unit := runDriver ({} : DS) stepLine
